@@ -534,7 +534,7 @@ func genOpts() *pgen.Opts {
 	o := pgen.OptsFor(evid.KnownActive, evid.Excluded)
 	o.BigRep = true
 	if !evid.Thorough() {
-		o.BigRepN = 3000
+		o.BigRepN = 2500
 	}
 	return o
 }
@@ -543,7 +543,7 @@ const valuesPerType = 12
 
 func TestRoundTrip(t *testing.T) {
 	o := genOpts()
-	evid.Check(t, "RoundTrip", 1900, func(rt *rapid.T) {
+	evid.Check(t, "RoundTrip", 1600, func(rt *rapid.T) {
 		c := Case{Type: pgen.GenType(rt, o)}
 		tset := map[string]bool{}
 		typeLabels(&c.Type, tset)
@@ -600,7 +600,7 @@ func TestRoundTrip(t *testing.T) {
 func TestBigRepeated(t *testing.T) {
 	o := genOpts()
 	o.ForceBigRep = true
-	evid.Check(t, "BigRepeated", 70, func(rt *rapid.T) {
+	evid.Check(t, "BigRepeated", 60, func(rt *rapid.T) {
 		if evid.KnownActive(pgen.ClassRepOver10) {
 			evid.Excluded(pgen.ClassRepOver10)
 			return
